@@ -427,7 +427,7 @@ func includePathsInOrder(basePath string, includes []ast.Include) []string {
 	var resolved []string
 	for _, inc := range includes {
 		if include.IsGlobPattern(inc.Path) {
-			pattern := include.ConvertHledgerGlob(inc.Path)
+			pattern := include.ExpandHome(include.ConvertHledgerGlob(inc.Path))
 			if !filepath.IsAbs(pattern) {
 				pattern = filepath.Join(dir, pattern)
 			}
